@@ -37,7 +37,7 @@ impl Scheme {
 }
 
 // ---------------------------------------------------------------------------------------------
-// Toy scheme: non-cryptographic, variable-length signatures (40..=89 bytes), cheap under Miri.
+// Toy scheme: non-cryptographic, variable-length signatures (40..=89 bytes; by key also 1..8 and 300..349), cheap under Miri.
 // ---------------------------------------------------------------------------------------------
 fn fnv(mut h: u64, data: &[u8]) -> u64 {
     for &b in data {
@@ -65,7 +65,13 @@ pub fn toy_sig(public: &[u8], msg: &[u8]) -> Vec<u8> {
     let h = fnv(fnv(0xcbf29ce484222325, public), msg);
     // keys whose public key starts with a byte >= 0xf0 make LONG signatures (300..349 bytes): no record of such a
     // key can fit in 300 bytes, which exercises every size-error path with a signature longer than the limit
-    let len = 40 + (h % 50) as usize + if public.first().map(|b| *b >= 0xf0).unwrap_or(false) { 260 } else { 0 };
+    // keys whose public key starts with 0xe0..=0xef make SHORT signatures (1..8 bytes): valid records of 45..60 bytes,
+    // below the size of any record of the built-in schemes; a one-byte signature below 0x80 is a one-byte RLP item
+    let len = match public.first() {
+        Some(b) if *b >= 0xf0 => 300 + (h % 50) as usize,
+        Some(b) if *b >= 0xe0 => 1 + (h % 8) as usize,
+        _ => 40 + (h % 50) as usize,
+    };
     let mut s = h;
     let mut out = Vec::with_capacity(len + 8);
     while out.len() < len {
